@@ -500,6 +500,18 @@ impl JoinPlanner {
             return ir;
         }
 
+        // A Union combines the bodies of independent rules (same head): plan each
+        // input on its own. Building one join graph from the scans of all inputs
+        // would join the rule bodies with each other.
+        if let IRNode::Union { inputs } = ir {
+            return IRNode::Union {
+                inputs: inputs.into_iter().map(|i| self.plan_joins(i)).collect(),
+            };
+        }
+        if Self::has_union(&ir) {
+            return ir;
+        }
+
         // Only optimize if there are joins
         if !Self::has_joins(&ir) {
             return ir;
@@ -558,6 +570,25 @@ impl JoinPlanner {
             IRNode::Compute { input, .. } => Self::extract_head_vars(input),
             // Join/Scan/etc: no projection above, all vars needed
             _ => None,
+        }
+    }
+
+    /// Check if IR contains a Union below its root
+    fn has_union(ir: &IRNode) -> bool {
+        match ir {
+            IRNode::Union { .. } => true,
+            IRNode::Scan { .. } | IRNode::HnswScan { .. } => false,
+            IRNode::Map { input, .. }
+            | IRNode::Filter { input, .. }
+            | IRNode::Distinct { input }
+            | IRNode::Aggregate { input, .. }
+            | IRNode::Compute { input, .. }
+            | IRNode::FlatMap { input, .. } => Self::has_union(input),
+            IRNode::Join { left, right, .. }
+            | IRNode::Antijoin { left, right, .. }
+            | IRNode::JoinFlatMap { left, right, .. } => {
+                Self::has_union(left) || Self::has_union(right)
+            }
         }
     }
 
